@@ -88,14 +88,14 @@ CLAIMS.update({
  "C23": ("P-TRIE literal-dispatch reconstruction + per-literal agreement of monomorphic callee tokens between encrypt and decrypt",
          "R23a name-set equality (encrypt / decrypt / validator, and encrypt_ip/decrypt_ip); R23b same cipher, mode, padding and key/IV sizes per name on both sides.", "§4 C23"),
  "C27": ("P-TRIE (byte tries and str chains) + name normalisation of the instantiated hasher / constant per variant literal",
-         "R27a each variant's leaf instantiates the algorithm of that name and no sibling's; R27b validator table == dispatch set; R27c md5/sha1/seahash use their own crate; R27d no narrowing integer cast on a hasher's output (P-FLOW); R27e every success return of resolve is dominated by a read of the algorithm/variant field.", "§4 C27"),
+         "R27a each variant's leaf instantiates the algorithm of that name and no sibling's; R27b validator table == dispatch set; R27c md5/sha1/seahash use their own crate; R27d no narrowing integer cast on a hasher's output (P-FLOW); R27e every success return of resolve is dominated by a read of the algorithm/variant field; R27f lossy UTF-8 conversions inside the digest functions touch only the algorithm/variant argument (backward flow of the receiver to a named parameter), never the message or key.", "§4 C27"),
 })
 
 CLAIMS.update({
  "C30": ("alphabet agreement: PEG-alternation reader over grammar.pest vs P-CHARSET (P-VAR over the char switch) of the escape functions; formatter-instantiation scan vs NUMERIC_TERM",
          "R30a every character the grammar treats as special for unquoted terms is escaped by lucene_escape; R30b quoted_escape covers PHRASE's needs; R30c numeric alphabet: float formatters called by the renderers emit only exponent letters NUMERIC_TERM accepts (callee instantiation names from MIR vs grammar.pest). Found and fixed the whitespace defect.", "§4 C30"),
  "C32": ("recursion-guard check: dominance of the membership test over the recursive call + SCC analysis of the local call graph; dominance of an exactness comparison over float->int casts",
-         "R32a parse_alias tests alias_stack before descending (hit => Err, miss => push); R32b no recursive cycle bypasses parse_alias; R32c (numeric filters) every kept float->integer cast of a Value::Float payload in grok_filter is dominated by an exactness guard (dominator query over cast/compare statements). Cycle-rejection clause and one necessary condition of the filters clause.", "§4 C32"),
+         "R32a parse_alias tests alias_stack before descending (hit => Err, miss => push); R32b no recursive cycle bypasses parse_alias; R32c (numeric filters) every kept float->integer cast of a Value::Float payload in grok_filter is dominated by an exactness guard (dominator query over cast/compare statements); R32d parse_grok_rules hands the rule text to parse_pattern without any str/String rewriting call in its body or closures (who-may-call over the family, with a positive control for the callee pattern). Cycle-rejection clause and one necessary condition of the filters clause.", "§4 C32"),
  "C33": ("expression-tree extraction of Span::new arguments: unchecked-subtraction and character-vs-byte unit taint; consumer check of Formatter::fmt",
          "R33a no raw subtraction into Span::new outside a reviewed site; R33b Formatter::fmt and its helpers have no unwrap/expect/indexing; R33c no character-unit quantity becomes a byte offset. Found and fixed the template-span defect.", "§4 C33"),
 })
